@@ -32,7 +32,7 @@ from typing import Any
 import yaml
 
 from framework import Check, cbool, clist, cpair, cstr, load_corpus
-from prop_C09 import SCRATCH, gen_spec, new_root, run_generator, san, snapshot
+from prop_C09 import SCRATCH, decide_oracle_only, gen_spec, new_root, run_generator, san, snapshot
 
 TRUSTED = [
     "Coq 8.16.1 kernel + vm_compute (witness theorems and correspondence evaluation)",
@@ -218,7 +218,8 @@ def ref_graph(loaded: dict) -> list:
 
 
 def py_acyclic(g: list) -> bool:
-    adj = {n: [t for _, t in es] for n, es in g}
+    """no reference cycle through two or more schemas (self references are not an order hazard, as in Render.strip_self)"""
+    adj = {n: [t for _, t in es if t != n] for n, es in g}
     state: dict[str, int] = {}
 
     def dfs(n: str) -> bool:
@@ -306,6 +307,67 @@ def run_render_doc(spec: dict, rng, n_perm: int) -> list[dict]:
                           "abs": {"doc": dabs, "graph": ref_graph(loaded), "tags": tagtbl, "san": santbl, "usable": usable},
                           "obs": {"ok": r.ok, "error": r.error, "method_order": man["method_order"],
                                   "skipped": sum(1 for l in r.log.splitlines() if "Skipping operation parsing" in l)},
+                          "oracle_fail": fails})
+    finally:
+        for r_ in roots:
+            shutil.rmtree(r_, ignore_errors=True)
+    return cases
+
+
+def gen_family_spec(rng) -> dict:
+    """<= 4 schemas: a self-referencing base, a schema derived from it through allOf, optionally a holder of the base and
+    a plain schema - in a random declaration order (every order is then enumerated)"""
+    R = "#/components/schemas/"
+    base, derived = rng.choice([("Folder", "SharedFolder"), ("Node", "LeafNode"), ("Category", "TopCategory")])
+    sch: dict[str, Any] = {
+        base: {"type": "object", "required": ["name"], "properties": {
+            "name": {"type": "string"}, "parent": {"$ref": R + base},
+            "children": {"type": "array", "items": {"$ref": R + base}}}},
+        derived: {"allOf": [{"$ref": R + base}, {"type": "object", "properties": {"owner": {"type": "string"}}}]},
+    }
+    if rng.random() < 0.7:
+        sch["Drive"] = {"type": "object", "properties": {"root": {"$ref": R + base}, "label": {"type": "string"}}}
+    if rng.random() < 0.7:
+        sch["Stamp"] = {"type": "object", "properties": {"at": {"type": "string", "format": "date-time"}}}
+    items = list(sch.items())
+    rng.shuffle(items)
+    return {"openapi": "3.0.3", "info": {"title": "T", "version": "1"},
+            "paths": {"/things": {"get": {"operationId": "listThings", "responses": {"200": {"description": "ok", "content": {
+                "application/json": {"schema": {"type": "array", "items": {"$ref": R + derived}}}}}}}}},
+            "components": {"schemas": dict(items)}}
+
+
+def run_schema_orders(spec: dict) -> list[dict]:
+    """EVERY declaration order of components.schemas (<= 4 schemas): the manifest must equal that of the given order"""
+    import itertools
+    from pyopenapi_gen.core.utils import NameSanitizer
+    names = list(spec["components"]["schemas"])
+    assert len(names) <= 4
+    cases, roots = [], []
+    ref_man = None
+    try:
+        for i, order in enumerate(itertools.permutations(names)):
+            s = copy.deepcopy(spec)
+            s["components"]["schemas"] = {n: spec["components"]["schemas"][n] for n in order}
+            root = new_root("c19o_")
+            roots.append(root)
+            r = run_generator(json.dumps(s), root)
+            man = manifest(root) if r.ok else {"models": {}, "clients": {}, "method_order": {}}
+            if i == 0:
+                ref_man, ref_ok = man, r.ok
+            fails = []
+            if r.ok != ref_ok:
+                fails.append(f"order {list(order)}: generation outcome differs from order {names}")
+            else:
+                md = manifest_diff(ref_man, man)
+                if md:
+                    fails.append(f"declaration order {list(order)} of components.schemas changes the package (vs {names}): {md[:3]}")
+            dabs = doc_abstract(s)
+            tagtbl, santbl = tables_for(dabs)
+            cases.append({"input": {"kind": "render", "variant": f"perm_order_{i}", "spec": s},
+                          "abs": {"doc": dabs, "graph": ref_graph(s), "tags": tagtbl, "san": santbl,
+                                  "usable": r.ok and all(NameSanitizer.sanitize_module_name(t) == k for t, k in tagtbl)},
+                          "obs": {"ok": r.ok, "error": r.error, "method_order": man["method_order"], "skipped": 0},
                           "oracle_fail": fails})
     finally:
         for r_ in roots:
@@ -516,22 +578,32 @@ def main(chk: Check, replay: dict | None = None) -> int:
 
     # ---------------- render
     specs = [c["input"]["spec"] for c in corpus if c["input"].get("kind") == "render"]
+    n_corpus_render = len(specs)
     n_docs = 40 if chk.thorough else 8
     tries = 0
-    while len(specs) < len([c for c in corpus if c["input"].get("kind") == "render"]) + n_docs and tries < 200:
+    while len(specs) < n_corpus_render + n_docs and tries < 200:
         tries += 1
-        s = gen_spec(rng, p_declared=1.0, cycles=False, collide=0.0, n_paths=(2, 4), shared_params=0.5, path_level=0.5, sse=0.1)
+        s = gen_spec(rng, p_declared=1.0, cycles=False, collide=0.0, n_paths=(2, 4), shared_params=0.5, path_level=0.5, sse=0.1, shared_bodies=0.5)
         if collision_free(s):
             specs.append(s)
     render_cases: list[dict] = []
     for s in specs:
         render_cases += run_render_doc(s, rng, 16 if chk.thorough else 8)
+    # every declaration order of small schema families (self-referencing base + allOf-derived schema)
+    fam_specs = [c["input"]["spec"] for c in corpus if c["input"].get("kind") == "orders"]
+    fam_specs += [gen_family_spec(rng) for _ in range(4 if chk.thorough else 1)]
+    n_order_cases = 0
+    for s in fam_specs:
+        oc = run_schema_orders(s)
+        n_order_cases += len(oc)
+        render_cases += oc
     usable = [c for c in render_cases if c["abs"]["usable"]]
     codes = chk.coq_eval(imports, "render_in * list (str * list str)", [c_render_case(c) for c in usable], "run_render",
                          tag="render") if chk.model_ok else None
     chk.decide(usable, codes, {1: "F02a", 2: "F02c"},
                "render: Render.emitted_by_tag(parse_doc d) = methods per endpoints module of the generated package")
-    chk.decide([c for c in render_cases if not c["abs"]["usable"]], None, {}, "render (no model: generation failed, or tag/module names differ)")
+    decide_oracle_only(chk, [c for c in render_cases if not c["abs"]["usable"]],
+                       "render (no model: generation failed, or tag/module names differ)")
     by_variant: dict[str, int] = {}
     for c in render_cases:
         v = re.sub(r"_\d+$", "", c["input"]["variant"])
@@ -542,6 +614,7 @@ def main(chk: Check, replay: dict | None = None) -> int:
                       "by_variant": by_variant,
                       "oracle_failures": sum(1 for c in render_cases if c["oracle_fail"]),
                       "generation_failed": sum(1 for c in render_cases if not c["obs"]["ok"]),
+                      "exhaustive_schema_order_generations": n_order_cases,
                       "cyclic_documents": sum(1 for c in render_cases if not py_acyclic(c["abs"]["graph"]))}
 
     # ---------------- keys
